@@ -15,6 +15,18 @@ pub use toml::TomlFormat;
 pub use xml::XmlJsonmlFormat;
 pub use yaml::YamlFormat;
 
+/// JSON string escaping for YAML and TOML documents: both also forbid a raw DEL (U+007F),
+/// which JSON lets through.
+pub(crate) fn escape_string_json_del_buf(value: &str, buf: &mut String) {
+	let start = buf.len();
+	jrsonnet_evaluator::manifest::escape_string_json_buf(value, buf);
+	if value.contains('\u{7f}') {
+		let escaped = buf[start..].replace('\u{7f}', "\\u007f");
+		buf.truncate(start);
+		buf.push_str(&escaped);
+	}
+}
+
 #[builtin]
 pub fn builtin_escape_string_json(str_: IStr) -> Result<String> {
 	Ok(escape_string_json(&str_))
